@@ -5,7 +5,7 @@ Frame facts about the core model (M1) needed to couple it with the job layer: wh
 may do to the *started* status of a task (state `Running`, or the `started` flag of a multi-node assignment) and to
 the registered consumers.
 
-* `TRel mn t t'` — task record `t'` descends from `t`: same id, no new consumers, and (`stOk`) it is Running only if
+* `TRelSys mn t t'` — task record `t'` descends from `t`: same id, no new consumers, and (`stOk`) it is Running only if
   it was Running in the same place, RunningMultiNode only if it was RunningMultiNode (or `mn`: a scheduling round);
 * `WRel w w'` — worker record `w'` descends from `w`: same id and the `started` flag of a multi-node assignment is
   not newly set;
@@ -46,20 +46,20 @@ theorem stOk.mono {mn mn' : Prop} (hm : mn → mn') {a b : TS} (h : stOk mn a b)
   | running w v => exact h
   | _ => trivial
 
-structure TRel (P : Prop) (t t' : Task) : Prop where
+structure TRelSys (P : Prop) (t t' : Task) : Prop where
   id : t'.id = t.id
   cons : ∀ c ∈ t'.consumers, c ∈ t.consumers
   st : stOk P t.state t'.state
 
-theorem TRel.refl (P : Prop) (t : Task) : TRel P t t := ⟨rfl, fun _ h => h, stOk.refl _ _⟩
+theorem TRelSys.refl (P : Prop) (t : Task) : TRelSys P t t := ⟨rfl, fun _ h => h, stOk.refl _ _⟩
 
-theorem TRel.trans {P : Prop} {a b c : Task} (h1 : TRel P a b) (h2 : TRel P b c) : TRel P a c :=
+theorem TRelSys.trans {P : Prop} {a b c : Task} (h1 : TRelSys P a b) (h2 : TRelSys P b c) : TRelSys P a c :=
   ⟨h2.id.trans h1.id, fun x hx => h1.cons x (h2.cons x hx), h1.st.trans h2.st⟩
 
-theorem TRel.mono {P Q : Prop} (hpq : P → Q) {a b : Task} (h : TRel P a b) : TRel Q a b :=
+theorem TRelSys.mono {P Q : Prop} (hpq : P → Q) {a b : Task} (h : TRelSys P a b) : TRelSys Q a b :=
   ⟨h.id, h.cons, h.st.mono hpq⟩
 
-def TFr (P : Prop) (ts ts' : List Task) : Prop := ∀ t' ∈ ts', ∃ t ∈ ts, TRel P t t'
+def TFr (P : Prop) (ts ts' : List Task) : Prop := ∀ t' ∈ ts', ∃ t ∈ ts, TRelSys P t t'
 
 structure WRel (w w' : Worker) : Prop where
   id : w'.id = w.id
@@ -77,7 +77,7 @@ structure Fr (P : Prop) (s s' : State) : Prop where
   w : WFr s.workers s'.workers
 
 theorem Fr.refl (P : Prop) (s : State) : Fr P s s :=
-  ⟨fun t ht => ⟨t, ht, TRel.refl _ _⟩, fun _ wk h => ⟨wk, h, WRel.refl _⟩⟩
+  ⟨fun t ht => ⟨t, ht, TRelSys.refl _ _⟩, fun _ wk h => ⟨wk, h, WRel.refl _⟩⟩
 
 theorem Fr.trans {P : Prop} {a b c : State} (h1 : Fr P a b) (h2 : Fr P b c) : Fr P a c := by
   constructor
@@ -96,7 +96,7 @@ theorem Fr.mono {P Q : Prop} (hpq : P → Q) {a b : State} (h : Fr P a b) : Fr Q
 /-- only queues / redirects / flags / requests change -/
 theorem Fr.of_eq {P : Prop} {s s' : State} (ht : s'.tasks = s.tasks) (hw : s'.workers = s.workers) : Fr P s s' := by
   constructor
-  · rw [ht]; exact fun t h => ⟨t, h, TRel.refl _ _⟩
+  · rw [ht]; exact fun t h => ⟨t, h, TRelSys.refl _ _⟩
   · rw [hw]; exact fun _ wk h => ⟨wk, h, WRel.refl _⟩
 
 /-- the same lists seen from two states -/
@@ -143,12 +143,12 @@ theorem TFr.put {P : Prop} {ts : List Task} {told t' : Task} (hf : findTask ts t
   rcases mem_putTask' hx with e | e
   · subst e
     exact ⟨told, findTask_some_mem hf, ⟨(findTask_some_id hf).symm, hc, hs⟩⟩
-  · exact ⟨x, e, TRel.refl _ _⟩
+  · exact ⟨x, e, TRelSys.refl _ _⟩
 
 theorem TFr.erase (P : Prop) (ts : List Task) (id : TaskId) : TFr P ts (eraseTask ts id) :=
-  fun x hx => ⟨x, mem_eraseTask' hx, TRel.refl _ _⟩
+  fun x hx => ⟨x, mem_eraseTask' hx, TRelSys.refl _ _⟩
 
-theorem TFr.refl (P : Prop) (ts : List Task) : TFr P ts ts := fun t h => ⟨t, h, TRel.refl _ _⟩
+theorem TFr.refl (P : Prop) (ts : List Task) : TFr P ts ts := fun t h => ⟨t, h, TRelSys.refl _ _⟩
 
 theorem TFr.trans {P : Prop} {a b c : List Task} (h1 : TFr P a b) (h2 : TFr P b c) : TFr P a c := by
   intro t'' ht''
